@@ -119,9 +119,10 @@ def objstm_data(index):
     return head + body, len(head)
 
 
-def layout(rng, phys, xref, root, mark=True):
-    """phys: list of Phys in physical order; xref: dict key -> Phys | ('raw', offset_into_garbage).
-    Returns (file bytes, case text, info)."""
+def layout(rng, phys, xref, root, mark=True, compressed=None):
+    """phys: list of Phys in physical order; xref: dict key -> Phys | 'raw' (an offset into garbage).
+    compressed: None = classic xref table; dict number -> container key = cross-reference stream with those
+    Compressed entries.  Returns (file bytes, case text)."""
     out = bytearray(b'%PDF-1.5\n')
     bm = b'\xbb\xad\xc0\xde'     # Document::new()'s default stays when line 2 is not a binary mark
     if mark:
@@ -173,24 +174,41 @@ def layout(rng, phys, xref, root, mark=True):
         else:
             raise ValueError(k)
     garbage_at = len(out)
-    out += b'%% filler\n'
-    maxkey = max(xref)
+    out += b'%% filler\nnot an object\n'
+    maxkey = max(list(xref) + list(compressed or {}))
     xref_at = len(out)
-    out += b'xref\n0 %d\n' % (maxkey + 1)
     entries = []
+    rows = []
     for key in range(maxkey + 1):
         t = xref.get(key)
         if t is None:
-            out += b'0000000000 65535 f \n'
+            if compressed and key in compressed:
+                rows.append((2, compressed[key], 0))
+            else:
+                rows.append((0, 0, 65535))
             continue
         off = garbage_at + 1 if t == 'raw' else t.offset
-        out += b'%010d 00000 n \n' % off
+        rows.append((1, off, 0))
         entries.append(L(str(key), str(off), 'fail' if t == 'raw' else t.parsed))
     size = maxkey + 1
-    trailer = [(b'Size', ('i', size)), (b'Root', ('ref', root, 0))]
-    out += b'trailer\n' + pdf(('d', trailer)) + b'\nstartxref\n%d\n%%%%EOF' % xref_at
-    case = L('case', xb(bytes(out)), L('meta', xb(b'1.5'), xb(bm), sx(('d', trailer)), str(maxkey), '0'),
-             L('entries', *entries))
+    if compressed is None:
+        out += b'xref\n0 %d\n' % size
+        for ty, a, b in rows:
+            out += b'%010d %05d %s \n' % (a, b, b'n' if ty == 1 else b'f')
+        trailer = [(b'Size', ('i', size)), (b'Root', ('ref', root, 0))]
+        out += b'trailer\n' + pdf(('d', trailer)) + b'\nstartxref\n%d\n%%%%EOF' % xref_at
+    else:
+        # cross-reference stream, not listed in itself; Length and W come last so that removing them keeps the order
+        body = b''.join(bytes([ty]) + a.to_bytes(4, 'big') + b.to_bytes(2, 'big') for ty, a, b in rows)
+        trailer = [(b'Type', ('n', b'XRef')), (b'Size', ('i', size)), (b'Root', ('ref', root, 0))]
+        full = trailer + [(b'W', ('a', [('i', 1), ('i', 4), ('i', 2)])), (b'Length', ('i', len(body)))]
+        out += b'%d 0 obj\n' % (size + 5) + pdf(('d', full)) + b'\nstream\n' + body + b'\nendstream\nendobj\n'
+        out += b'startxref\n%d\n%%%%EOF' % xref_at
+    meta = [xb(b'1.5'), xb(bm), sx(('d', trailer)), str(maxkey), '0']
+    if compressed:
+        # a number with a Normal entry has no Compressed entry (one entry per number in the table)
+        meta.append(L('xc', *[L(str(n), str(c)) for n, c in sorted(compressed.items()) if n not in xref]))
+    case = L('case', xb(bytes(out)), L('meta', *meta), L('entries', *entries))
     return bytes(out), case
 
 
@@ -264,7 +282,28 @@ def gen_random(rng, nstreams, agree, tier):
     if rng.random() < 0.1:
         xref[total + 1 + len(pool) + 3] = 'raw'
     root = rng.choice(plain_keys)
-    return layout(rng, phys, xref, root, mark=rng.random() < 0.8)
+    compressed = None
+    if os_keys and rng.random() < 0.5:
+        # a cross-reference stream that places some numbers in a container: usually one that holds the number,
+        # sometimes one that does not, a key that is no object stream, or a number that is also a Normal entry (ignored: the
+        # table has one entry per number, the Normal one is written)
+        compressed = {}
+        holders = {}
+        for p in phys:
+            if p.kind[0] == 'objstm':
+                for num, o in p.kind[1]:
+                    holders.setdefault(num, []).append(p.num)
+        for num in pool + [total + 30]:
+            r = rng.random()
+            if r < 0.65 and holders.get(num):
+                compressed[num] = rng.choice(holders[num])
+            elif r < 0.8:
+                compressed[num] = rng.choice(keys)
+            elif r < 0.85:
+                compressed[num] = total + 20
+        if not compressed:
+            compressed = {total + 30: os_keys[0]}
+    return layout(rng, phys, xref, root, mark=rng.random() < 0.8, compressed=compressed)
 
 
 def gen_dup_headers(rng):
@@ -302,7 +341,8 @@ def gen_dup_headers(rng):
         phys.append(r)
         xref[9] = r
     rng.shuffle(phys)
-    return layout(rng, phys, xref, 1, mark=True)
+    compressed = rng.choice([None, {20: 5}, {20: 5, 21: 5, 9: 5}, {21: 4, 20: 4}])
+    return layout(rng, phys, xref, 1, mark=True, compressed=compressed)
 
 
 def gen_cases(rng, tier):
@@ -395,3 +435,13 @@ def witness_case():
             Phys(3, ('objstm', [(10, ('i', 2))], False))]
     xref = {p.num: p for p in phys}
     return layout(random.Random(0), phys, xref, 1, mark=True)[1]
+
+
+def witness_case_c07():
+    """the same two object streams, the cross-reference stream placing object 10 in the second one"""
+    import random
+    phys = [Phys(1, ('obj', ('d', [(b'Type', ('n', b'Catalog'))]))),
+            Phys(2, ('objstm', [(10, ('i', 1))], False)),
+            Phys(3, ('objstm', [(10, ('i', 2))], False))]
+    xref = {p.num: p for p in phys}
+    return layout(random.Random(0), phys, xref, 1, mark=True, compressed={10: 3})[1]
